@@ -10,6 +10,13 @@
      distinct cleaned tag names (keys07), C07_names_wf16: admissible names discharge the per-instance conditions of C16.
    * C07_wf_out_Test_TEMPLATEStateMachine_cs / C07_fixed_point_shipped_cs: the same for the shipped Test.TEMPLATEStateMachine.cs (one more syntactic
      name condition: no guard named like a state hook; the user-tag line's output judged per assignment).
+   * C07_wf_out_TEMPLATEStateMachine_py / _h, C07_fixed_point_shipped_py / _h: the same for the whole shipped files TEMPLATEStateMachine.py and
+     TEMPLATEStateMachine.h (transition blocks, per-event signature blocks with the signature oracle, initial-state lines, the transition-table
+     line).  All their USER tags are fixed text, so the cleaned names are distinct for every element record (C07_keys_unique_TEMPLATEStateMachine_py / _h);
+     names_ok_py / names_ok_h (= names_ok_x, syntactic): every name a non-empty alphanumeric word; the initial state, the names and values of the
+     per-state transition lists, the cells of the table rows and the oracle's signature strings the file asks for (both files: without defaults) free
+     of '{', backslash and CR.  C07_dyn_plain_of_names:
+     then the output chunks of those four kinds of items are plain chunks (through the reference expansion, paren_clean and the sml table printer).
    * C07_tags_consumed_shipped(_user): the generator-tag half for every shipped file inside the block grammar (C07_shipped_files_in_grammar)
      (TEMPLATEReceiver.h and TEMPLATETransmitter.h carry no USER tag; their lines contain '{' next to name tags, which the
      simple "no brace on a line with a name tag" criterion of in_grammar07 does not admit: wf_fresh_file is not proved for them).
@@ -25,7 +32,7 @@ From Coq Require Import String Ascii List Bool.
 From KV Require Import Lib.Str Lib.ODict Model.PreserveCore Model.Preserve Model.TagShape
                        Gen.Tags Gen.Templates Gen.Vocab Proofs.PreserveStr Proofs.TagShapeProofs
                        Model.Engine Model.EngineSM Model.EngineDomain Model.EngineDomain16 Model.Parse16 Spec.RefExpand Spec.RefExpand16
-                       Model.EngineDomain07 Proofs.Shipped16 Proofs.Shipped07 Proofs.Shipped07Cpp Proofs.Shipped07Cs Proofs.PreserveTop.
+                       Model.EngineDomain07 Proofs.Shipped16 Proofs.Shipped07 Proofs.Shipped07Cpp Proofs.Shipped07Cs Proofs.Dyn07 Proofs.Shipped07X Proofs.PreserveTop.
 Import ListNotations.
 Open Scope string_scope.
 
@@ -222,3 +229,94 @@ Example C07_wf_out_nonvacuous :
      end = true.
 Proof. split; vm_compute; reflexivity. Qed.
 Print Assumptions C07_wf_out_nonvacuous.
+
+(* ---------------------------------------------------------------- the whole files TEMPLATEStateMachine.py / TEMPLATEStateMachine.h *)
+(* the same for a template with transition blocks, per-event signature blocks, initial-state lines and the transition-table line: such items carry no
+   USER tag (texts_ok07 passes over them), the lines they produce under the element record must be plain well-formed lines (dyn_lines_plain, computed) *)
+Theorem C07_fresh_of_template_x : forall e t,
+  names_fine e -> texts_ok07 t = true -> user_lines_plain e t = true -> dyn_lines_plain e t = true -> forallb item16_ok t = true -> NoDup (keys07 e t) ->
+  wf_fresh_file (flat_map (ref_item16 e) t) = true.
+Proof. exact fresh_of_template_x. Qed.
+Print Assumptions C07_fresh_of_template_x.
+
+(* dyn_lines_plain follows from the names: if the literal pieces of the transition blocks / signature blocks / initial-state lines / table-line prefix of
+   the template are free of '{', backslash and CR (dyn_ok07, computed on the template) and so are the states, events, initial state, the names and
+   values of the per-state transition lists, the cells of the table rows (dyn_names_ok, syntactic) and those signature strings of the oracle that the
+   template's lines ask for (sigs_clean07: without defaults for <<<SIGNATURE>>>, with defaults for <<<SIGNATUREWITHDEFAULTS>>>), then every chunk those items put out -- through subst16 / subst_any with alternative texts, EngineSM.paren_clean and the boost::sml
+   printer EngineSM.sml_print with its padding and right-stripping -- is free of them and ends with LF, hence is a plain chunk *)
+Theorem C07_dyn_plain_of_names : forall e t, dyn_ok07 t = true -> dyn_names_ok e = true -> sigs_clean07 t (el_evsigs e) = true -> dyn_lines_plain e t = true.
+Proof. exact dyn_plain_of_names. Qed.
+Print Assumptions C07_dyn_plain_of_names.
+
+(* strip: the file's items without the empty-string entries the first filtering leaves (TEMPLATEStateMachine.h has one); the written text is the same *)
+Theorem C07_strip_same_text : forall e t, ref16 e (strip t) = ref16 e t.
+Proof. exact ref16_strip. Qed.
+Print Assumptions C07_strip_same_text.
+
+(* the USER tags of the two files are fixed text: pairwise distinct cleaned names for EVERY element record *)
+Theorem C07_keys_unique_TEMPLATEStateMachine_py : forall e, NoDup (keys07 e (strip t_py)).
+Proof. exact nodup_keys_py. Qed.
+Print Assumptions C07_keys_unique_TEMPLATEStateMachine_py.
+Theorem C07_keys_unique_TEMPLATEStateMachine_h : forall e, NoDup (keys07 e (strip t_h)).
+Proof. exact nodup_keys_h. Qed.
+Print Assumptions C07_keys_unique_TEMPLATEStateMachine_h.
+
+(* for EVERY model (with its signature oracle if_sigs) and EVERY assignment a of user tags with the syntactic names_ok_py (= names_ok_x: alphanumeric names;
+   initial state, transition lists, table cells, oracle strings free of '{', backslash, CR), the user line's output plain (user_lines_plain, computed), and the
+   C16 admission of the file (wf_elements16, computed): what smgen.Generate writes for TEMPLATEStateMachine.py is createoutput of a well-formed fresh file *)
+Theorem C07_wf_out_TEMPLATEStateMachine_py : forall m (a : usertags),
+  names_ok_py (with_user a (elements_of_model m)) = true -> user_lines_plain (with_user a (elements_of_model m)) (strip t_py) = true ->
+  wf_elements16 t_py (with_user a (elements_of_model m)) = true ->
+  generate_file m dict0 a lines_py = Some (concat_lines (map tab4 (fresh_py (with_user a (elements_of_model m)))))
+  /\ wf_fresh_file (fresh_py (with_user a (elements_of_model m))) = true.
+Proof. exact shipped_py_wf_out. Qed.
+Print Assumptions C07_wf_out_TEMPLATEStateMachine_py.
+
+Theorem C07_wf_out_TEMPLATEStateMachine_h : forall m (a : usertags),
+  names_ok_h (with_user a (elements_of_model m)) = true -> user_lines_plain (with_user a (elements_of_model m)) (strip t_h) = true ->
+  wf_elements16 t_h (with_user a (elements_of_model m)) = true ->
+  generate_file m dict0 a lines_h = Some (concat_lines (map tab4 (fresh_h (with_user a (elements_of_model m)))))
+  /\ wf_fresh_file (fresh_h (with_user a (elements_of_model m))) = true.
+Proof. exact shipped_h_wf_out. Qed.
+Print Assumptions C07_wf_out_TEMPLATEStateMachine_h.
+
+Theorem C07_fixed_point_shipped_py : forall e path (u : string -> list string),
+  names_ok_py e = true -> user_lines_plain e (strip t_py) = true -> (forall k, block_ok (u k) = true) ->
+  regen_file path (fresh_py e) (on_disk u (items_of (fresh_py e))) = (on_disk u (items_of (fresh_py e)), []).
+Proof. exact fixed_point_py. Qed.
+Print Assumptions C07_fixed_point_shipped_py.
+
+Theorem C07_fixed_point_shipped_h : forall e path (u : string -> list string),
+  names_ok_h e = true -> user_lines_plain e (strip t_h) = true -> (forall k, block_ok (u k) = true) ->
+  regen_file path (fresh_h e) (on_disk u (items_of (fresh_h e))) = (on_disk u (items_of (fresh_h e)), []).
+Proof. exact fixed_point_h. Qed.
+Print Assumptions C07_fixed_point_shipped_h.
+
+(* the CD player table with a signature oracle (one event with parameters and a default) and StateMachineThread=0 meets every hypothesis of both
+   theorems; the files are the shipped ones; each output has its USER tag pairs *)
+Definition cd_sigs : list (string * (string * string)) :=
+  [("EventOpen", ("", "")); ("EventPlay", ("track, speed", "track, speed=1")); ("EventEndOfTrack", ("", ""))].
+Example C07_wf_out_py_h_nonvacuous :
+  shipped16 dict0 lines_py = Some (l0_py, t_py) /\ shipped16 dict0 lines_h = Some (l0_h, t_h)
+  /\ match tt_model cd_rows [] ["MessageHeader"] [] with
+     | Some m => let E := with_user [("StateMachineThread", "0")] (elements_of_model (with_sigs cd_sigs m)) in
+                 names_ok_py E && user_lines_plain E (strip t_py) && wf_elements16 t_py E
+                 && names_ok_h E && user_lines_plain E (strip t_h) && wf_elements16 t_h E
+                 && Nat.eqb (List.length (pair_keys kof (items_of (fresh_py E)))) 1 && Nat.eqb (List.length (pair_keys kof (items_of (fresh_h E)))) 5
+                 && Nat.ltb 100 (List.length (fresh_py E))
+     | None => false
+     end = true.
+Proof. split; [|split]; vm_compute; reflexivity. Qed.
+Print Assumptions C07_wf_out_py_h_nonvacuous.
+
+(* the condition on the oracle is needed: with a signature string that spells a USER tag of the file, every other hypothesis of C07_wf_out_TEMPLATEStateMachine_h
+   holds and the generated header is NOT a well-formed fresh file (the tag USER_LOCALS occurs three times) *)
+Example C07_oracle_condition_needed :
+  match tt_model cd_rows [] ["MessageHeader"] [] with
+  | Some m => let E := with_user [("StateMachineThread", "0")] (elements_of_model (with_sigs [("EventOpen", ("int x /* {{{USER_LOCALS}}} */", ""))] m)) in
+              names_plain E && dyn_names_ok E && user_lines_plain E (strip t_h) && wf_elements16 t_h E
+              && negb (sigs_clean07 (strip t_h) (el_evsigs E)) && negb (wf_fresh_file (fresh_h E))
+  | None => false
+  end = true.
+Proof. vm_compute. reflexivity. Qed.
+Print Assumptions C07_oracle_condition_needed.
